@@ -49,7 +49,38 @@ def run(ctx):
                   step("line", b"354 go\r\n"), step("data", b"250 queued\r\n", slow_us=150), step("line", b"221 bye\r\n")]
         slow.append({"id": 200000 + len(slow), "flavor": fl, "timeout_ms": 20000, "server_cap_ms": 30000, "servers": [script],
                      "ops": [{"op": "connect", "hello": hx(b"c03.test")}, {"op": "send", "from": hx(b"a@x.org"), "to": [hx(b"b@y.org")], "msg": hx(big)}, {"op": "quit"}]})
-    res = run_scenarios(scs + [m[0] for m in multi] + slow)
+    # the low-level API (command + message) keeps a connection after a refused message: what is sent next must be the next message only
+    low = []
+    for rep in range(4 if ctx.tier == "quick" else 40):
+        seq = [ctx.rng.choice(heads) + b"text" + ctx.rng.choice(tails) for _ in range(ctx.rng.randint(3, 6))]
+        refused = {i for i in range(len(seq)) if ctx.rng.random() < 0.45} or {1}
+        for fl in ("sync", "tokio"):
+            script = [step("none", b"220 hi\r\n"), step("line", b"250-srv\r\n250-8BITMIME\r\n250 SMTPUTF8\r\n")]
+            ops = [{"op": "connect", "hello": hx(b"c03.test")}]
+            for i, m in enumerate(seq):
+                script += [step("line", b"250 ok\r\n"), step("line", b"250 ok\r\n"), step("line", b"354 go\r\n"),
+                           step("data", b"452 4.3.1 insufficient storage\r\n" if i in refused else b"250 queued\r\n"), step("line", b"250 reset\r\n")]
+                ops += [{"op": "lowsend", "from": hx(b"a@x.org"), "to": [hx(b"b@y.org")], "msg": hx(m)}, {"op": "rset"}]
+            script.append(step("line", b"221 bye\r\n"))
+            ops.append({"op": "quit"})
+            low.append(({"id": 300000 + len(low), "flavor": fl, "timeout_ms": 3000, "servers": [script], "ops": ops}, seq))
+    res = run_scenarios(scs + [m[0] for m in multi] + slow + [m[0] for m in low])
+    lres = res[len(scs) + len(multi) + len(slow):]
+    res = res[:len(scs) + len(multi) + len(slow)]
+    lspec, lidx = [], []
+    low_bad = []
+    for j, ((sc, seq), r) in enumerate(zip(low, lres)):
+        ctx.count()
+        srv = (r.get("servers") or [None])[0]
+        Rs = events_R(srv) if srv else []
+        if len(Rs) != 2 + 5 * len(seq) or Rs[-1] != b"QUIT\r\n":
+            low_bad.append((j, "low-level session: the server did not see %d transactions (each followed by RSET) and QUIT: %d units, results %s" % (len(seq), len(Rs), str(r.get("results"))[:160]))); continue
+        for i, m in enumerate(seq):
+            lspec.append("spec.server_data\t" + hx(Rs[4 + 5 * i] + b"NEXT\r\n")); lidx.append((j, i))
+    for (j, i), o in zip(lidx, run_model(lspec)):
+        m = low[j][1][i]
+        if o != "some\t%s\t%s" % (hx(m + b"\r\n"), hx(b"NEXT\r\n")):
+            low_bad.append((j, "low-level session, message %d of %d (after refused ones): the receiver reconstructs %s, the message is %r" % (i + 1, len(low[j][1]), o[:80], m[:30])))
     sres = res[len(scs) + len(multi):]
     mres = res[len(scs):len(scs) + len(multi)]
     res = res[:len(scs)]
@@ -114,6 +145,10 @@ def run(ctx):
     ctx.cov["oracle"]["large_message_to_slow_reader"] = {"cases": len(slow), "octets": len(big), "failures": len(slow_bad)}
     if slow_bad:
         ctx.violation({"kind": "oracle-wire-backpressure", "flavor": slow_bad[0][0], "what": slow_bad[0][1]})
+    ctx.cov["oracle"]["low_level_sessions_with_refused_messages"] = {"sessions": len(low), "messages": sum(len(m[1]) for m in low), "failures": len(low_bad)}
+    if low_bad:
+        j, why = low_bad[0]
+        ctx.violation({"kind": "oracle-wire-lowlevel", "flavor": low[j][0]["flavor"], "what": why, "messages_hex": [hx(m) for m in low[j][1]], "scenario": low[j][0]})
     if multi_bad:
         j, why = multi_bad[0]
         ctx.violation({"kind": "oracle-wire-session", "flavor": multi[j][0]["flavor"], "what": why, "messages_hex": [hx(m) for m in multi[j][1]], "scenario": multi[j][0]})
